@@ -1107,3 +1107,26 @@ Lemma nak_to_ack_refuted :
     let a' := react (sa s) (AChar ACK) in
     e_done a' = [7] /\ e_deliv (sb s) = [].
 Proof. eexists. split; [vm_compute; reflexivity|]. cbn. repeat split; reflexivity. Qed.
+
+(** Why [Down] must be terminal. The CURRENT line engine goes on serving the line after its own
+    send failed, until the core's teardown reaches it, while the closing generation's delivery
+    path already drops frames. [closing_react] is that behaviour: the end answers as if idle but
+    nothing reaches its handlers. Then a message can be ACK'd — its send returns nil — and lost. *)
+Definition closing_react (e : endst) (a : arrival) : endst :=
+  let e' := react (set_ph e (match e_ph e with Down => Idle | p => p end)) a in
+  {| e_master := e_master e'; e_limit := e_limit e'; e_ph := e_ph e'; e_out := e_out e';
+     e_done := e_done e'; e_todo := e_todo e'; e_k := e_k e'; e_attempts := e_attempts e';
+     e_open := e_open e'; e_last := e_last e'; e_deliv := e_deliv e; e_handed := e_handed e';
+     e_yields := e_yields e' |}.
+
+Lemma served_after_failure_refuted :
+  exists s, run (sys0 0 0 [(7, 1)] [(9, 1)]) [LStart B; LLine B Drop; LTimeout B] = Some s /\
+    e_ph (sb s) = Down /\
+    let a1 := start (sa s) in                                       (* the master requests the line: ENQ *)
+    let b1 := closing_react (sb s) (AChar ENQ) in                   (* ... still answered: EOT *)
+    let a2 := react (set_out a1 []) (AChar EOT) in                  (* block transmitted *)
+    let b2 := closing_react (set_out b1 []) (ABlk (blk 7 0 1)) in   (* ... ACK'd, frame dropped *)
+    let a3 := react (set_out a2 []) (AChar ACK) in                  (* the master's send returns nil *)
+    e_out a1 = [OCh ENQ] /\ e_out b1 = [OCh EOT] /\ e_out a2 = [OBlk (blk 7 0 1)] /\
+    e_out b2 = [OCh ACK] /\ e_done a3 = [7] /\ e_deliv b2 = [].
+Proof. eexists. split; [vm_compute; reflexivity|]. cbn. repeat split; reflexivity. Qed.
